@@ -337,7 +337,7 @@ func TestColoring(t *testing.T) {
 		}
 		return c
 	}, checkCol)
-	vk.Run(t, "coloring", vk.Opts{Quick: 4000, Thorough: 120000, NoCrumb: true}, func(t *rapid.T) colCase {
+	vk.Run(t, "coloring", vk.Opts{Quick: 6000, Thorough: 120000, NoCrumb: true}, func(t *rapid.T) colCase {
 		var g G
 		if rapid.IntRange(0, 3).Draw(t, "szcls") > 0 {
 			g = drawG(t, false, 10, undClasses, []int{contOrdered, contSimple})
